@@ -115,7 +115,7 @@ pub fn run(args: &[String]) {
             "normalize" => { rec["args"] = json!([]); guarded(|| tipv(&t.clone().normalize())).unwrap_or(json!("panic")) }
             "total" => { rec["args"] = json!([]); guarded(|| json!(hexf(t.total()))).unwrap_or(json!("panic")) }
             "scale_by" => {
-                let f = *rng.pick(&[0.5, 2.0, 3.0, 0.1, 1e6, 1.0, 0.0, 7.25]);
+                let f = *rng.pick(&[0.5, 2.0, 3.0, 0.1, 1e6, 1.0, 0.0, 7.25, -2.0, 8.691694759794e-311, 1e-300]);
                 rec["args"] = json!([hexf(f)]);
                 guarded(|| tipv(&t.clone().scale_by(f))).unwrap_or(json!("panic"))
             }
@@ -143,7 +143,7 @@ pub fn run(args: &[String]) {
             }
             "fused" => {
                 let t1 = if rng.chance(1, 2) { gen_threshold(&mut rng, &pat, true) } else { rng.unit() * 1.2 };
-                let t2 = if rng.chance(1, 3) { *rng.pick(&[0.0, 0.001, 0.01, 0.05, 0.25, 0.4, 0.5, 1.0, 1.2]) } else { rng.unit() * rng.unit() * 1.2 };
+                let t2 = if rng.chance(1, 3) { *rng.pick(&[0.0, 0.001, 0.01, 0.05, 0.25, 0.4, 0.5, 1.0, 1.2, -0.5, 0.0]) } else { rng.unit() * rng.unit() * 1.2 };
                 let sh = (rng.unit() - 0.5) * 2000.0;
                 rec["args"] = json!([hexf(t1), hexf(t2), hexf(sh)]);
                 let step = guarded(|| tipv(&t.clone().truncate_after(t1).ignore_below(t2).shift(sh))).unwrap_or(json!("panic"));
